@@ -191,7 +191,7 @@ struct Coord {
   std::string verdict = "ok"; time_t t_start = time(nullptr); long wall_budget = 900; long immediate_run = 0, spin_k = 1500000; std::map<long, long> deviate; long decision = 0;
 
   bool cyclic = false;   // SIMMPI_PLACEMENT=cyclic: world rank r lives on node r % N (round-robin) instead of r / P (block)
-  long icoll_idle = 0, icoll_idle_k = 4000;   // non-blocking collectives posted since the last point-to-point activity / harness event (per rank average): rounds that never end
+  long icoll_idle = 0, icoll_idle_k = 4000;   // consecutive UNBALANCED 16-byte all-reductions (YGM's (received, sent) totals differ) since the last point-to-point activity / harness event: rounds that never end
   int hold_dst = -1; long hold_steps = 0;   // SIMMPI_HOLD=<dst>:<steps>: a message to dst is not delivered during its first <steps> scheduling steps (directed schedules)
   long log_written = 0, log_budget = 768L << 20;   // runaway handlers must not fill the disk
   void L(const char* fmt, ...) { if (!log) return; if (log_written > log_budget) { if (verdict == "ok") verdict = "log-budget"; return; }
@@ -236,7 +236,10 @@ struct Coord {
     Comm& c = comms[cid]; int m = (int)c.members.size(); in.result.assign(m, {}); in.ret.assign(m, 0); in.computed = true;
     switch (in.kind) {
       case CK_BARRIER: break;
-      case CK_ALLREDUCE: { auto acc = in.contrib[0]; for (int i = 1; i < m; ++i) reduce(acc, in.contrib[i], in.dt, in.op); for (int i = 0; i < m; ++i) in.result[i] = acc; break; }
+      case CK_ALLREDUCE: { auto acc = in.contrib[0]; for (int i = 1; i < m; ++i) reduce(acc, in.contrib[i], in.dt, in.op); for (int i = 0; i < m; ++i) in.result[i] = acc;
+        // a count-based barrier whose totals stay unbalanced while nothing moves any more will never terminate
+        if (acc.size() == 16) { uint64_t v[2]; memcpy(v, acc.data(), 16); if (v[0] != v[1]) { if (++icoll_idle > icoll_idle_k && verdict == "ok") verdict = "livelock"; } else icoll_idle = 0; }
+        break; }
       case CK_EXSCAN: { std::vector<char> acc; for (int i = 0; i < m; ++i) { if (i > 0) { in.result[i] = acc; in.ret[i] = 1; } if (i == 0) acc = in.contrib[0]; else reduce(acc, in.contrib[i], in.dt, in.op); } break; }
       case CK_SCAN: { std::vector<char> acc; for (int i = 0; i < m; ++i) { if (i == 0) acc = in.contrib[0]; else reduce(acc, in.contrib[i], in.dt, in.op); in.result[i] = acc; } break; }
       case CK_ALLGATHER: { std::vector<char> all; for (int i = 0; i < m; ++i) all.insert(all.end(), in.contrib[i].begin(), in.contrib[i].end()); for (int i = 0; i < m; ++i) in.result[i] = all; break; }
@@ -282,7 +285,7 @@ struct Coord {
         L("irecv r=%d comm=%d req=%d", r, q->comm, q->id);
         bool bound = false; for (size_t i = 0; i < R.unexpected.size(); ++i) if (match(*q, *R.unexpected[i])) { auto m = R.unexpected[i]; R.unexpected.erase(R.unexpected.begin() + i); bind(q, m); bound = true; break; }
         if (!bound) R.posted.push_back(q); reply(r, out); return true; }
-      case OP_ICOLL: { R.icolls++; if (++icoll_idle > icoll_idle_k * n && verdict == "ok") verdict = "livelock"; auto q = std::make_shared<Req>(); q->owner = r; q->id = h.a[5]; q->kind = 2; q->comm = h.a[0]; R.reqs[q->id] = q;
+      case OP_ICOLL: { R.icolls++; auto q = std::make_shared<Req>(); q->owner = r; q->id = h.a[5]; q->kind = 2; q->comm = h.a[0]; R.reqs[q->id] = q;
         q->seq = contribute(r, h.a[0], h.a[1], h.a[2], h.a[3], h.a[4], 0, pl);
         if (pl.size() == 16) { uint64_t v[2]; memcpy(v, pl.data(), 16); L("iallreduce r=%d comm=%d seq=%d v0=%llu v1=%llu", r, q->comm, q->seq, (unsigned long long)v[0], (unsigned long long)v[1]); } else L("icoll r=%d comm=%d seq=%d", r, q->comm, q->seq);
         reply(r, out); return true; }
